@@ -319,7 +319,12 @@ func (d Decimal) Mod(input Decimal) Decimal {
 func (d Decimal) ToProtoDecimal() *dtpb.Decimal {
 	// The decimal text is carried over as is: a float64 would drop digits
 	// beyond its precision (FHIR decimals are arbitrary-precision strings).
-	return &dtpb.Decimal{Value: decimal.Decimal(d).String()}
+	value := decimal.Decimal(d)
+	if exp := value.Exponent(); exp < 0 {
+		// keep the written scale ("1.10"): the precision of a FHIR decimal is significant
+		return &dtpb.Decimal{Value: value.StringFixed(-exp)}
+	}
+	return &dtpb.Decimal{Value: value.String()}
 }
 
 // Round rounds a Decimal at the provided precision.
